@@ -3,6 +3,14 @@
 clauses of the statement that are not claimed."""
 
 PROPS = {
+    'C17': {'scans': [], 'trusted': [], 'bounded': [], 'not_claimed': []},
+    'C16': {'scans': [], 'trusted': [], 'bounded': [], 'not_claimed': []},
+    'C12': {'scans': [], 'trusted': [], 'bounded': [], 'not_claimed': []},
+    'C11': {'scans': [], 'trusted': [], 'bounded': [], 'not_claimed': []},
+    'C10': {'scans': [], 'trusted': [], 'bounded': [], 'not_claimed': []},
+    'C06': {'scans': [], 'trusted': [], 'bounded': [], 'not_claimed': []},
+    'C07': {'scans': [], 'trusted': [], 'bounded': [], 'not_claimed': []},
+    'C08': {'scans': [], 'trusted': [], 'bounded': [], 'not_claimed': []},
     'C09': {'scans': [], 'trusted': [], 'bounded': [], 'not_claimed': []},
     'C18': {'scans': ['user_code_runs_in_scope', 'hooks_run_in_scope'], 'trusted': [], 'bounded': [], 'not_claimed': []},
     'C02': {'scans': [], 'trusted': [], 'bounded': [], 'not_claimed': []},
